@@ -680,6 +680,8 @@ def search(ctx, np, util, config, sf_actual, icases=()):
 
     for i in range(nrt):
         kind = r.choice(["wav", "npy", "npz", "pt", "h5", "flac", "aiff", "sph", "raw"])
+        if i % 40 == 7:
+            kind = r.choice(["wav", "wav", "flac"])
         cast = r.choice([None, None] + [np.dtype(d) for d in ALL_DT]) if r.random() < 0.5 else None
         path = os.path.join(FILES, "s%05d" % i)
         detail = dict(container=kind, cast=None if cast is None else cast.name)
@@ -687,6 +689,10 @@ def search(ctx, np, util, config, sf_actual, icases=()):
             if kind in ("wav", "flac", "aiff", "sph"):
                 t = r.choice([0, 1, 2, 7, 50, 400]) if kind == "wav" else r.choice([1, 2, 7, 50, 400])
                 ch = r.choice([1, 1, 2, 3, 6])
+                if kind in ("wav", "flac", "aiff") and i % 40 == 7:
+                    # recordings of many seconds (more frames than fit a 16-bit counter), mono and multi-channel
+                    t, ch = r.choice([65537, 70001, 150000]), r.choice([1, 2, 2, 5])
+                    ctx.count("roundtrip:long-audio")
                 if kind == "sph" and r.random() < 0.4:
                     # data sections longer than the reader's 16 KiB block, with frame sizes that do not divide it
                     t, ch = r.choice([2731, 3000, 5500, 9000]), r.choice([1, 3, 5, 6, 7])
